@@ -41,6 +41,12 @@ func Verif_C19_retention() {
 	gz := (cs/2)%2 == 1
 	viaRotate := cs/4 == 1
 	days := verifChoose("days", 3)
+	// the configured delimiter between the file name and the time stamp: the default "-", one
+	// that sorts below it and one that sorts above it (backup names are compared as strings)
+	delim := []string{"-", "+", "_"}[verifChoose("delimiter", 3)]
+	if delim != "-" {
+		verifReach("other-delimiter")
+	}
 	maxBackups := 0
 	if sizeRule {
 		maxBackups = verifChoose("maxBackups", 3)
@@ -55,9 +61,9 @@ func Verif_C19_retention() {
 	now := verifEarlyInSecond()
 	var rule RotateRule
 	if sizeRule {
-		rule = NewSizeLimitRotateRule(cur, "-", days, 1, maxBackups, gz)
+		rule = NewSizeLimitRotateRule(cur, delim, days, 1, maxBackups, gz)
 	} else {
-		rule = DefaultRotateRule(cur, "-", days, gz)
+		rule = DefaultRotateRule(cur, delim, days, gz)
 	}
 	l, err := NewLogger(cur, rule, gz)
 	verifAssert(err == nil && l != nil, "NewLogger succeeds")
@@ -72,9 +78,9 @@ func Verif_C19_retention() {
 		}
 		var name string
 		if sizeRule {
-			name = dir + "/cur-" + boundary.Add(time.Duration(a)*time.Hour).Format(fileTimeFormat) + ".log"
+			name = dir + "/cur" + delim + boundary.Add(time.Duration(a)*time.Hour).Format(fileTimeFormat) + ".log"
 		} else {
-			name = cur + "-" + boundary.Add(time.Duration(a)*hoursPerDay*time.Hour).Format(dateFormat)
+			name = cur + delim + boundary.Add(time.Duration(a)*hoursPerDay*time.Hour).Format(dateFormat)
 		}
 		if kind == 2 {
 			name += gzipExt
